@@ -77,6 +77,7 @@ import (
 
 func TestMain(m *testing.M) {
 	evid.Tests(
+		evid.Spec{Name: "FuzzTitle", Kind: "fuzz", Thorough: 120, ThoroughOnly: true, QuickShards: 1, ThoroughShards: 1},
 		evid.Spec{Name: "TestReplay", Kind: "plain", QuickShards: 1, ThoroughShards: 1},
 		evid.Spec{Name: "TestPropRoundTrip", Kind: "rapid", Quick: 48000, Thorough: 2400000, QuickShards: 8, ThoroughShards: 16},
 		evid.Spec{Name: "TestPropTitle", Kind: "rapid", Quick: 64000, Thorough: 2400000, QuickShards: 8, ThoroughShards: 16},
